@@ -216,8 +216,15 @@ func TestPropEnvBlock(t *testing.T) {
 			stepStrs = append(stepStrs, cmd, lbl, ev1)
 			p.Steps = append(p.Steps, &pipeline.CommandStep{Command: cmd, Label: lbl, Env: map[string]string{"STEPVAR": ev1}})
 		}
-		p.RemainingFields = map[string]any{"note": "${A}-${R1}"}
-		stepStrs = append(stepStrs, "${A}-${R1}")
+		// another top-level field most of the time; without it and without steps the pipeline is nothing but
+		// its env block - which is processed all the same (rewritten, written back to the caller)
+		hasNote := rapid.IntRange(0, 3).Draw(t, "hasnote") != 0
+		if hasNote {
+			p.RemainingFields = map[string]any{"note": "${A}-${R1}"}
+			stepStrs = append(stepStrs, "${A}-${R1}")
+		} else if ns == 0 {
+			rec.Class("pipeline-is-only-an-env-block")
+		}
 
 		// the model
 		menv := envx.New(fold, runtime)
@@ -308,8 +315,10 @@ func TestPropEnvBlock(t *testing.T) {
 						idx++
 					}
 				}
-				if g := p.RemainingFields["note"]; g != wantStrs[idx] {
-					t.Fatalf("top-level string expanded to %q, model %q\n%s", g, wantStrs[idx], desc())
+				if hasNote {
+					if g := p.RemainingFields["note"]; g != wantStrs[idx] {
+						t.Fatalf("top-level string expanded to %q, model %q\n%s", g, wantStrs[idx], desc())
+					}
 				}
 			}
 		}
